@@ -114,10 +114,39 @@ def check_chain(ck):
             ck.ob("C36.chain", cp, t.test, bool(acts), "the branch for a cancelled source cancels/settles the target (cancellation is copied)")
 
 
+def _check_output_value(ck, P, mf, cb, c, v, res, facts, extra):
+    """The settled value is the ordered result list, dict(zip(keys, results)) under `keys is not None`, or a conditional
+    expression whose arms are those (facts of the arm added).  A value that does not use the result list at all is a
+    violation; any other shape is not understood (AnalysisError)."""
+    if q.dotted(v) == res:
+        ck.ob(P + ".multi-order", cb, c, True, "list input: the output is the result list")
+        return
+    if q.is_call(v, "dict") and len(v.args) == 1 and q.is_call(v.args[0], "zip") and len(v.args[0].args) == 2 and q.dotted(v.args[0].args[1]) == res:
+        keys = q.dotted(v.args[0].args[0])
+        kst = [st for st in q.stores_to(mf.node, keys) if isinstance(getattr(st, "value", None), ast.Call)] if keys else []
+        ok = any(q.is_call(st.value, "list") and st.value.args and isinstance(st.value.args[0], ast.Call) and q.call_attr(st.value.args[0]) == "keys" for st in kst)
+        under = holds(facts, "%s is None" % keys, False) or (("%s is None" % keys, False) in extra) if keys else False
+        ck.ob(P + ".multi-order", cb, c, ok and under, "dict input: results are zipped with list(children.keys()) (same order as children.values())")
+        return
+    if isinstance(v, ast.IfExp):
+        t, pol = canon_fact(v.test, True)
+        _check_output_value(ck, P, mf, cb, c, v.body, res, facts, extra + [(t, pol)])
+        _check_output_value(ck, P, mf, cb, c, v.orelse, res, facts, extra + [(t, not pol)])
+        return
+    if not any(isinstance(n, ast.Name) and n.id == res for n in ast.walk(v)):
+        ck.ob(P + ".multi-order", cb, c, False, "the output value is built from the ordered result list")
+        return
+    raise AnalysisError("%s: output value of multi in an unrecognised shape: %s" % (cb.site(c), q.unparse(v)[:80]))
+
+
 def check_multi(ck, P="C36"):
     mf = ck.func(G, "multi_future")
     cfg = mf.cfg
     nested = [nf for nf in ck.repo.nested(mf) if nf.parent is mf and isinstance(nf.node, q.FuncNode)]
+    # the completion callback is the nested function registered on the children (other nested helpers may exist; the
+    # ones it calls have been inlined by the normaliser)
+    registered = {q.dotted(c.args[1]) for c in own_walk(mf.node) if isinstance(c, ast.Call) and q.call_attr(c) in ("future_add_done_callback", "add_future") and len(c.args) == 2}
+    nested = [nf for nf in nested if nf.name in registered] if len(nested) != 1 else nested
     if len(nested) != 1:
         raise AnalysisError("%s: expected one nested callback" % mf.site())
     cb = ck.use(nested[0])
@@ -222,8 +251,7 @@ def check_multi(ck, P="C36"):
             c = s_[1]
             if q.call_attr(c) == "future_set_result_unless_cancelled" or (isinstance(c.func, ast.Attribute) and c.func.attr == "set_result"):
                 v = c.args[-1]
-                okv = q.dotted(v) == res or (q.is_call(v, "dict") and len(v.args) == 1 and q.is_call(v.args[0], "zip") and len(v.args[0].args) == 2 and q.dotted(v.args[0].args[1]) == res)
-                ck.ob(P + ".multi-order", cb, c, okv, "the output value is built from the ordered result list")
+                _check_output_value(ck, P, mf, cb, c, v, res, cfacts[s_[0].id], [])
     for nd in rl:
         x = nd.ast.target.id
         ck.ob(P + ".multi-order", cb, nd.ast.iter, q.dotted(nd.ast.iter) == kids, "results are read in input order (iteration over the ordered child list %s, not a set)" % kids)
@@ -236,16 +264,7 @@ def check_multi(ck, P="C36"):
             for s in ss:
                 c = s[1]
                 if q.call_attr(c) == "future_set_result_unless_cancelled" or (isinstance(c.func, ast.Attribute) and c.func.attr == "set_result"):
-                    v = c.args[-1]
-                    if q.dotted(v) == res:
-                        ck.ob(P + ".multi-order", cb, c, True, "list input: the output is the result list")
-                    elif q.is_call(v, "dict") and len(v.args) == 1 and q.is_call(v.args[0], "zip") and len(v.args[0].args) == 2 and q.dotted(v.args[0].args[1]) == res:
-                        keys = q.dotted(v.args[0].args[0])
-                        kst = [st for st in q.stores_to(mf.node, keys) if isinstance(getattr(st, "value", None), ast.Call)]
-                        ok = any(q.is_call(st.value, "list") and st.value.args and method_call_on(st.value.args[0], None, "keys") or (q.is_call(st.value, "list") and st.value.args and isinstance(st.value.args[0], ast.Call) and q.call_attr(st.value.args[0]) == "keys") for st in kst)
-                        ck.ob(P + ".multi-order", cb, c, ok and holds(cfacts[s[0].id], "%s is None" % keys, False), "dict input: results are zipped with list(children.keys()) (same order as children.values())")
-                    else:
-                        ck.ob(P + ".multi-order", cb, c, False, "the output value is built from the ordered result list")
+                    _check_output_value(ck, P, mf, cb, c, c.args[-1], res, cfacts[s[0].id], [])
     # typestate: once the last child finished, the callback leaves the output done
     sc = node_counts(cb, lambda x: any(x is s[1] for s in ss))
     donef = "%s.done()" % out
